@@ -17,7 +17,7 @@ from checks import apitrace  # noqa
 
 def awkward(rng):
     """Inputs that NumPy handles and cubed may have to decline: odd layouts for reshape / qr / scans, many blocks, size-0 dims."""
-    k = rng.choice(["scan-blocks", "reshape", "qr", "qr", "svd", "zero", "clip", "stack-mixed", "stack-mixed", "drop-axis"])
+    k = rng.choice(["scan-blocks", "reshape", "qr", "qr", "svd", "zero", "clip", "stack-mixed", "stack-mixed", "drop-axis", "repeat0"])
     if k == "scan-blocks":
         n = rng.choice([6, 7, 9, 11, 13, 14, 23])
         inp = dict(shape=[n * 2], chunks=[2], dtype="int64", seed=1, pattern="lin", src="asarray")
@@ -37,6 +37,11 @@ def awkward(rng):
         steps = [dict(op=rng.choice(["sum", "negative", "flip"]), args=[0], kw=dict(axis=0) if True else {})]
         if steps[0]["op"] == "negative":
             steps[0].pop("kw")
+    elif k == "repeat0":
+        inp = dict(shape=[4, 3], chunks=[2, rng.choice([1, 3])], dtype="int64", seed=1, pattern="lin", src="asarray")
+        steps = [dict(op="repeat", args=[0], kw=dict(repeats=0, axis=rng.choice([0, 1, -1])))]
+        if rng.random() < 0.5:
+            steps.append(dict(op="negative", args=[1]))
     elif k == "clip":
         inp = dict(shape=[5], chunks=[2], dtype="int64", seed=1, pattern="lin", src="asarray")
         steps = [dict(op="clip", args=[0], kw=dict(min=rng.choice([None, -2]), max=rng.choice([None, 3])))]
@@ -88,6 +93,14 @@ def run(chk):
             events, results, ob = apitrace.run_program_steps(prog, s, spec=spec)
         docs.append(dict(events=events))
         metas.append(dict(program=prog, outcome=events[-1]["exc"] or "ok"))
+    # probe of the open finding F31 (always executed, so the KNOWN-FINDING line reflects the current tree)
+    zprog = dict(inputs=[dict(shape=[0, 4], chunks=[1, 2], dtype="int64", seed=1, pattern="lin", src="asarray"),
+                         dict(shape=[0, 4], chunks=[1, 4], dtype="int64", seed=2, pattern="lin", src="asarray")],
+                 steps=[dict(op="add", args=[0, 1])], outs=[2], family="awkward-zero-mixed")
+    with traced.Session() as s:
+        events, results, ob = apitrace.run_program_steps(zprog, s, spec=s.spec())
+    docs.append(dict(events=events))
+    metas.append(dict(program=zprog, outcome=events[-1]["exc"] or "ok"))
     v = apitrace.validate(chk, "C17", docs)
     outcomes = {}
     for i, (doc, meta) in enumerate(zip(docs, metas), 1):
@@ -99,9 +112,10 @@ def run(chk):
         chk.trace_validated()
         if verdict != "ok":
             ev = doc["events"][l - 1]
-            chk.violation(f"program {[s['op'] + str(s.get('kw', '')) for s in meta['program']['steps']]} inputs "
-                          f"{[(x['shape'], x['chunks'], x['dtype']) for x in meta['program']['inputs']]}: {verdict} at call "
-                          f"{ev['call']}:{ev['name']} exception {ev['exc']}", replay=meta)
+            chk.fail_or_known(f"program {[s['op'] + str(s.get('kw', '')) for s in meta['program']['steps']]} inputs "
+                              f"{[(x['shape'], x['chunks'], x['dtype']) for x in meta['program']['inputs']]}: {verdict} at call "
+                              f"{ev['call']}:{ev['name']} exception {ev['exc']}", replay=meta,
+                              kind="api-program", family=meta["program"].get("family", ""), clause=verdict)
     chk.extra["outcomes"] = outcomes
 
 
